@@ -654,7 +654,7 @@ def evaluate(ctx, cases, with_model=True):
                     owner.append((idx, k))
     model = {}
     if exprs:
-        res = common.coq_eval("C12", IMPORTS, exprs, shard_size=60)
+        res = common.coq_eval("C12", IMPORTS, exprs, shard_size=max(40, (len(exprs) + 15) // 16))
         for (idx, k), t in zip(owner, res):
             model[(idx, k)] = t
     stats = {"fmt": {}, "kind": {}, "impl_ok": 0, "impl_err": 0, "defects": {}, "model_compared": 0, "loc_compared": 0, "sizes": {}}
@@ -785,7 +785,7 @@ def run(ctx):
             c["id"] = i
     else:
         q = ctx.quick()
-        cases = build_cases(ctx, 260 if q else 2500, 260 if q else 2500, 60 if q else 400)
+        cases = build_cases(ctx, 160 if q else 2500, 160 if q else 2500, 40 if q else 400)
     stats, distinct = evaluate(ctx, cases)
     e2e = e2e_stage(ctx) if not ctx.replay or any(c.get("kind") == "e2e" for c in [ctx.replay.get("case", {})]) else []
     ctx.coverage.update({
